@@ -237,7 +237,7 @@ def build_harness(name, sources, extra_flags=(), repo_sources=(), deps=(), flags
     flags = list(SAN_FLAGS if flags is None else flags) + list(extra_flags)
     srcs = [os.path.join(VERIF, s) for s in sources]
     rsrcs = [os.path.join(REPO, s) for s in repo_sources]
-    hdeps = [os.path.join(VERIF, d) for d in deps]
+    hdeps = [os.path.join(VERIF, d) for d in list(deps) + ["harness/painted.h"] if os.path.exists(os.path.join(VERIF, d))]
     key = hashlib.sha256((repo_hash() + file_hash(srcs + hdeps) + " ".join(flags) + REPO).encode()).hexdigest()[:16]
     os.makedirs(BUILD, exist_ok=True)
     out = os.path.join(BUILD, "%s-%s" % (name, key))
